@@ -10,6 +10,7 @@ import Driver.Zip
 import Driver.Fs
 import Driver.IO
 import Driver.Rm
+import Driver.Regex
 
 def dispatch (line : String) : String :=
   match (line.trimAscii.toString.splitOn " ").filter (· ≠ "") with
@@ -30,6 +31,7 @@ def dispatch (line : String) : String :=
   | "fsprog" :: rest => Driver.Fs.handle rest
   | "io" :: rest => Driver.IO.handle rest
   | "rm" :: rest => Driver.Rm.handle rest
+  | "excl" :: rest => Driver.Regex.handle rest
   | _ => "bad-op"
 
 partial def loop (hin hout : IO.FS.Stream) : IO Unit := do
